@@ -261,9 +261,77 @@ def search(ctx):
                               dict(kind="history", theory=name, scatterer=repr(sc), order=[int(x) for x in idx]))
                 break
     sibling_histories(ctx)
+    multichannel(ctx)
     ctx.sample(dict(kind="search", oracles=["holo == |s E + p|^2 from calc_field", "intensity == |E|^2", "scaling 0 -> exactly 1", "finite",
                                             "coords/dims == detector's", "attrs updated", "inputs untouched", "shuffled sequences bit-identical",
                                             "sibling histories: calculations differing in one argument, every ordered pair consecutive once, bit-identical to the value after an unrelated call"]))
+
+
+# ------------------------------------------------------------------ several illumination channels, optics as dictionaries
+def multichannel(ctx):
+    """hologram[c] = |scaling[c] E_c + p|^2 with E_c the field of an ordinary ONE-channel calculation at channel c's optics;
+    a dictionary is a mapping: the order in which its entries are written (and the order of the detector's channels)
+    changes no value; the result carries, per channel label, the optics that were passed in."""
+    import xarray as xr
+    rng = ctx.rng
+    n = ctx.n(6, 40)
+    names = ["red", "green", "blue", "ir"]
+    for i in range(n):
+        k = int(rng.integers(2, 4))
+        labels = list(rng.choice(names, size=k, replace=False))
+        det_order = list(rng.permutation(labels))
+        wl = {c: float(rng.uniform(0.4, 0.8)) for c in labels}
+        nidx = {c: float(rng.uniform(1.45, 1.65)) for c in labels}
+        al = {c: float(rng.uniform(0.3, 1.0)) for c in labels}
+        perm = lambda d: {c: d[c] for c in rng.permutation(list(d))}
+        center = (float(rng.uniform(0.2, 0.6)), float(rng.uniform(0.2, 0.6)), float(rng.uniform(4, 8)))
+        r = float(rng.uniform(0.3, 0.6))
+        pol = T.rand_pol(rng)
+        shape = (int(rng.integers(2, 5)), int(rng.integers(2, 5)))
+        sp = float(rng.uniform(0.1, 0.3))
+        index_as_dict = bool(rng.integers(0, 2))
+        info = dict(kind="multichannel", labels=labels, detector_order=det_order, wavelen=wl, index=nidx if index_as_dict else nidx[labels[0]], scaling=al,
+                    center=center, r=r, pol=list(pol), shape=list(shape), spacing=sp)
+        ctx.tried("multichannel", (tuple(labels), tuple(det_order), index_as_dict, shape))
+        try:
+            det = detector_grid(shape, sp, extra_dims={"illumination": det_order})
+            wl_w, al_w = perm(wl), perm(al)
+            info["written_order"] = dict(wavelen=list(wl_w), scaling=list(al_w))
+            sc = Sphere(n=perm(nidx) if index_as_dict else nidx[labels[0]], r=r, center=center)
+            holo = calc_holo(det, sc, T.NMED, wl_w, pol, theory=Mie(), scaling=al_w)
+            fld = calc_field(det, sc, T.NMED, wl_w, pol, theory=Mie())
+            inten = calc_intensity(det, sc, T.NMED, wl_w, pol, theory=Mie())
+            ones = calc_holo(det, sc, T.NMED, wl_w, pol, theory=Mie(), scaling=0)
+            if not (float(np.abs(ones.values - 1).max()) <= 1e-15):      # |p|^2 of the normalised polarisation: 1 up to one rounding
+                ctx.violation("C01:multichannel:scaling0", "scaling 0 is not exactly 1 on a %d-channel detector" % k, info)
+            det1 = detector_grid(shape, sp)
+            pn = np.array(pol, dtype=float) / np.linalg.norm(np.array(pol, dtype=float))
+            for c in labels:
+                sc1 = Sphere(n=nidx[c] if index_as_dict else nidx[labels[0]], r=r, center=center)
+                f1 = calc_field(det1, sc1, T.NMED, wl[c], pol, theory=Mie()).transpose("vector", "x", "y", "z").values
+                h_want = np.abs(al[c] * f1[0] + pn[0]) ** 2 + np.abs(al[c] * f1[1] + pn[1]) ** 2
+                i_want = np.abs(f1[0]) ** 2 + np.abs(f1[1]) ** 2
+                got_h = holo.sel(illumination=c).transpose("x", "y", "z").values
+                got_i = inten.sel(illumination=c).transpose("x", "y", "z").values
+                got_f = fld.sel(illumination=c).transpose("vector", "x", "y", "z").values
+                for nm, got, want in (("holo", got_h, h_want), ("intensity", got_i, i_want), ("field", got_f, f1)):
+                    dev = float(np.abs(got - want).max())
+                    if not (dev <= 1e-9 * max(1.0, float(np.abs(want).max()))):
+                        ctx.violation("C01:multichannel:%s" % nm, "%d channels, optics as dictionaries (entries written in the order %r, detector channels %r): %s of channel %r differs from the one-channel calculation with that channel's optics by %.3g" % (
+                            k, list(wl_w), det_order, nm, c, dev), dict(channel=c, dev=dev, **info))
+                        break
+                # the result carries the optics passed in, by channel label
+                for res, nm in ((holo, "holo"), (inten, "intensity"), (fld, "field")):
+                    w = res.attrs.get("illum_wavelen")
+                    try:
+                        wc = float(w.sel(illumination=c)) if hasattr(w, "sel") else float(w[c])
+                    except Exception:
+                        wc = None
+                    if wc is None or not (abs(wc - wl[c]) <= 1e-12):
+                        ctx.violation("C01:multichannel:attrs:%s" % nm, "%s: metadata reports wavelength %r for channel %r where %r was passed in" % (nm, wc, c, wl[c]), dict(channel=c, **info))
+                        break
+        except Exception as ex:
+            ctx.violation("C01:multichannel-raises:%s" % type(ex).__name__, "multi-channel calculation with dictionary optics raised %r" % (ex,), info)
 
 
 # ------------------------------------------------------------------ sibling histories
